@@ -39,6 +39,32 @@ impl Message for CMsg {
     type Response = Reply;
 }
 
+/// Tick of a timer. `Clone` is what `Context::interval` calls once per firing: the clone gets the
+/// next tick number and the firing is logged (harness-owned code, no hook in the library needed).
+pub struct Tick {
+    pub timer: String,
+    pub k: i64,
+    pub ctr: std::sync::Arc<std::sync::atomic::AtomicI64>,
+}
+impl Tick {
+    pub fn root(timer: &str) -> Self {
+        Tick { timer: timer.to_string(), k: 0, ctr: Default::default() }
+    }
+    pub fn fire(timer: &str, ctr: &std::sync::Arc<std::sync::atomic::AtomicI64>) -> Self {
+        let k = ctr.fetch_add(1, std::sync::atomic::Ordering::SeqCst) + 1;
+        ev(json!({"ev": "timer_fire", "task": cur_task(), "timer": timer, "k": k}));
+        Tick { timer: timer.to_string(), k, ctr: ctr.clone() }
+    }
+}
+impl Clone for Tick {
+    fn clone(&self) -> Self {
+        Tick::fire(&self.timer, &self.ctr)
+    }
+}
+impl Message for Tick {
+    type Response = ();
+}
+
 /// Per-actor configuration of callback scripts (looked up by the actor task's name).
 #[derive(Clone, Debug, Default, Serialize, Deserialize)]
 pub struct ActorScripts {
@@ -119,6 +145,30 @@ impl<const K: usize> H<K> {
                 let r = ctx.restart();
                 ev(json!({"ev": "eff", "task": me, "e": "ctx_restart", "n": 0, "res": if r.is_ok() {"ok"} else {"err"}}));
             }
+            "interval" | "interval_with" | "delayed_send" | "delayed_exec" => {
+                let d = std::time::Duration::from_millis(e.n as u64);
+                // registered name = script name + incarnation (a restarted `started` registers afresh)
+                let name = format!("{}.{}", e.s, self.inc(&me));
+                exec().label_next_timer(&name);
+                match e.e.as_str() {
+                    "interval" => ctx.interval(Tick::root(&name), d),
+                    "interval_with" => {
+                        let ctr: std::sync::Arc<std::sync::atomic::AtomicI64> = Default::default();
+                        ctx.interval_with(move || Tick::fire(&name, &ctr), d)
+                    }
+                    "delayed_send" => {
+                        let ctr: std::sync::Arc<std::sync::atomic::AtomicI64> = Default::default();
+                        ctx.delayed_send(move || Tick::fire(&name, &ctr), d)
+                    }
+                    _ => ctx.delayed_exec(
+                        async move {
+                            ev(json!({"ev": "timer_fire", "task": cur_task(), "timer": name, "k": 1}));
+                        },
+                        d,
+                    ),
+                }
+                ev(json!({"ev": "eff", "task": me, "e": e.e, "n": e.n, "s": e.s, "res": "ok"}));
+            }
             "panic" => {
                 ev(json!({"ev": "eff", "task": me, "e": "panic", "n": 0, "res": "ok"}));
                 panic!("scripted panic");
@@ -192,6 +242,11 @@ impl<const K: usize> Service for H<K> {}
 impl<const K: usize> Handler<SMsg> for H<K> {
     async fn handle(&mut self, ctx: &mut Context<Self>, msg: SMsg) {
         self.work(ctx, msg.0).await;
+    }
+}
+impl<const K: usize> Handler<Tick> for H<K> {
+    async fn handle(&mut self, ctx: &mut Context<Self>, msg: Tick) {
+        self.work(ctx, Desc { m: (msg.timer.clone(), msg.k), scr: vec![], src: "timer" }).await;
     }
 }
 impl<const K: usize> Handler<CMsg> for H<K> {
